@@ -5,8 +5,7 @@
    LinearOperatorMatrix.operator_norm on squares).  Executed on exact rationals and compared with the implementation by
    harness/props/C19.py on every run.  The estimate returned by the code is sqrt(q); all statements are on squares.
 
-   Not attempted: convergence of the estimates to the norm for generic start vectors (a spectral argument); the oracle of
-   the harness only checks it loosely on the implementation.  The sum-of-squares bound is proved for the 1x2 layout and the
+   Not attempted: convergence of the estimates to the norm for generic start vectors (a spectral argument).  The sum-of-squares bound is proved for the 1x2 layout and the
    vertical rule for any number of rows (general r x c grids: not proved, hence the suffix _partial). *)
 From Coq Require Import List Bool Arith Field Reals.
 Import ListNotations.
